@@ -29,7 +29,11 @@ TRUSTED_BASE = [
 # property table: proof modules, tie streams (harness stream names), notes
 # ---------------------------------------------------------------------------------------------------
 PROPS = {
+    'C03': dict(streams=['scale', 'conv']),
+    'C13': dict(streams=['scale']),
+    'C14': dict(streams=['chain']),
     'C15': dict(streams=['note', 'describe']),
+    'C16': dict(streams=['dict', 'note']),
 }
 
 class Infra(Exception):
